@@ -65,13 +65,15 @@ func (c *connection) onClose() error {
 		return nil
 	}
 
-	// closed by poller
+	// closed by poller, or by another Close/Detach call that has not taken the processing lock yet
 	// still need to change closing status to `user` since OnProcess should not be processed again
 	c.force(closing, user)
 
 	// user code should actively close the connection to recycle resources.
-	// poller already detached operator
-	return c.closeCallback(true, false)
+	// If the poller closed the connection it has already detached the operator and detaching again is a no-op.
+	// If a concurrent Close won closeBy(user) but we take the processing lock before it does, we run the
+	// teardown in its place, so the detach it would have done is ours to do.
+	return c.closeCallback(true, true)
 }
 
 // closeBuffer recycle input & output LinkBuffer.
